@@ -127,6 +127,8 @@ func sweepRecord(P *Program) {
 		}
 		if r.OK && r.Res.Ms < 1500 {
 			proved = append(proved, r.Obl.Name)
+		} else if os.Getenv("YQV_SWEEP_LIST") != "" {
+			fmt.Printf("unproved: %s  (%s)\n", r.Obl.Name, r.Obl.Pos)
 		}
 	}
 	sort.Strings(proved)
